@@ -48,6 +48,9 @@ type pkgCodec struct {
 	// SpecDec (optional): an independent decoder written from the TDS layout: wire bytes
 	// (token included) -> canonical "<kind> <field> …". Used by C06 for client-only packages.
 	SpecDec func(bs []byte) (string, bool)
+	// SpecDecCtx (optional, instead of SpecDec for kinds that need the preceding package): wire
+	// bytes (token included) and the bytes of the preceding package -> canonical "<kind> <field> …".
+	SpecDecCtx func(bs, ctx []byte) (string, bool)
 	// ClientOnly / ServerOnly: which direction the library is expected to support.
 	ClientOnly, ServerOnly bool
 	// NeedsCtx: decoding needs the preceding package (its bytes travel in <ctx>).
@@ -288,14 +291,24 @@ func pkgSpecDecLine(f []string) (out string) {
 		return "bad-op"
 	}
 	c := codecRegistry[f[0]]
-	if c == nil || c.SpecDec == nil {
+	if c == nil || (c.SpecDec == nil && c.SpecDecCtx == nil) {
 		return "bad-op"
 	}
 	e := pkgEncLine(f)
 	if !strings.HasPrefix(e, "ok ") {
 		return e
 	}
-	shown, ok := c.SpecDec(unhx(e[3:]))
+	var shown string
+	var ok bool
+	if c.SpecDec != nil {
+		shown, ok = c.SpecDec(unhx(e[3:]))
+	} else {
+		var ctx []byte
+		if c.CtxFor != nil {
+			ctx = c.CtxFor(f[1:])
+		}
+		shown, ok = c.SpecDecCtx(unhx(e[3:]), ctx)
+	}
 	if !ok {
 		return "specdec-rejects"
 	}
